@@ -1276,6 +1276,18 @@ def manager_keys_not_derived(ctx, rule, floor=10):
         # reached through the id the caller supplies, or not at all
         scans = [c for x in bodies for c in x.calls_to(r"(HashMap|BTreeMap)::<.*>::(keys|iter|values|iter_mut|values_mut|drain|retain|into_iter|into_keys|into_values|extract_if)$|Iterator>?::(min_by_key|max_by_key|min_by|max_by|find|find_map|min|max|last|nth|position)$")]
         R.check(not scans, rule, "%s:no-table-scan" % fkey(b), "%s reaches entries by key only" % short(b.path), "%s selects an entry by scanning a table (%s) instead of by the id of the message at hand: an answer that carries no usable id is attributed to whichever entry the scan picks - another call's or batch's slots are filled with it" % (short(b.path), sorted({short(c.name()) for c in scans})), where(scans[0]) if scans else None)
+    # the same two bans where a method of the manager that the pinned tree does not have was expanded into its caller
+    # (jrsa/inline.py): table operations on the manager's fields found outside the manager
+    SCAN = r"(HashMap|BTreeMap)::<.*>::(keys|iter|values|iter_mut|values_mut|drain|retain|into_iter|into_keys|into_values|extract_if)$"
+    for b in F.real_bodies():
+        if b.crate != CORE or is_test_body(b) or not b.d.get("_inlined") or not b.path.startswith("jsonrpsee_core::client::async_client::") or re.search(r"::manager::RequestManager::", b.path):
+            continue
+        for c in b.calls_to(SCAN):
+            if not c.args:
+                continue
+            lv = tr.origins(b, c.args[0])
+            if any(l.kind == "field" and any((f_[0] or "").endswith("manager::RequestManager") for f_ in l.detail["fields"]) for l in lv):
+                R.bad(rule, "%s:no-table-scan" % fkey(b), "%s (through a manager method that was expanded into it) selects an entry by scanning one of the request manager's tables (%s) instead of by the id of the message at hand: an answer that carries no usable id is attributed to whichever entry the scan picks" % (short(b.path), short(c.name())), where(c))
     R.floor(rule, n, floor, "keyed table operations in RequestManager")
 
 
@@ -1451,6 +1463,8 @@ def awaited_error_leaves_function(b, c):
     for sb, arms, other in flow.switch_on(b, vl):
         if arms.get("1") is not None:
             err_arms.append(arms["1"])
+    if not err_arms and 0 in holders:
+        return True, True   # the outcome is the function's own result (tail expression): the caller inspects it
     ok = bool(err_arms) and all(t in errs or flow.all_paths_pass(b, t, errs, exits) for t in err_arms)
     return bool(err_arms), ok
 
@@ -1513,6 +1527,7 @@ TEARDOWNS = {
         r"oneshot::Sender::<.*>::closed$": "the writer task went away",
         r"^std::future::poll_fn$": "the select over the three above",
         r"^param:tokio::task::JoinHandle<\(\)>$": "join of the writer task (it was told to stop)",
+        r"^tokio::(task::)?spawn$": "the same join handle, seen through a parameter struct back to the spawn that produced it",
     },
 }
 
